@@ -19,6 +19,47 @@ def wiper_summaries(P):
     return out
 
 
+def wiped_at_returns(f, p, wipes_T, taint_ids, N):
+    """must-dataflow: mask of bytes of T wiped on every path from just after p to each return (a later tainting instruction resets the mask);
+    returns (the meet over all reachable returns, location of the worst return) - (None, None) if no return is reachable"""
+    full = (1 << N) - 1
+    def run_block(b, k0, mask):
+        outs = []
+        for i in f.blocks[b][k0:]:
+            if i.id in taint_ids: mask = 0
+            if i.id in wipes_T:
+                o_, n_ = wipes_T[i.id]
+                mask |= ((1 << n_) - 1) << o_
+            if i.op == 'ret':
+                return mask, ('ret', i)
+            if i.op == 'unreachable' or (i.op == 'call' and i.get('noreturn')):
+                return None, None
+        return mask, None
+    IN = {}
+    worst = None; wloc = None
+    m, r = run_block(p.bb, p.idx + 1, 0)
+    work = []
+    def emit(b, m, r):
+        nonlocal worst, wloc
+        if m is None: return
+        if r is not None:
+            if worst is None or (m & worst) != worst:
+                if worst is None or bin(m).count('1') < bin(worst).count('1'): wloc = r[1].loc
+                worst = m if worst is None else (worst & m)
+            return
+        for s_ in f.succs[b]:
+            old = IN.get(s_)
+            new = m if old is None else (old & m)
+            if new != old:
+                IN[s_] = new; work.append(s_)
+    emit(p.bb, m, r)
+    while work:
+        b = work.pop()
+        m, r = run_block(b, 0, IN[b])
+        emit(b, m, r)
+    return worst, wloc
+
+
 def wipes(ctx, rep, cfgs=None):
     for cfg in cfgs or ctx.configs('path'):
         P = ctx.prog(cfg); pts = P.points_to()
@@ -38,9 +79,9 @@ def wipes(ctx, rep, cfgs=None):
         rep.instances(len(locs), 6, 'secret-bearing temporaries')
         rep.info.setdefault('secret_temporaries', {})[cfg] = ['%s.%s[%d bytes]' % (base_name(f.name), a.d.get('var', '?'), a.d['alloc_size']) for f, a in locs]
 
-        rep.rule('WIPE-2', 'for each secret-bearing temporary T of function f: on every CFG path from any instruction that may '
-                 'write secret data into T to any return of f there is a later call dep:memzero(&T+0, sizeof T) (directly, or '
-                 'through a helper that always makes that call); a memset or zero store does not count')
+        rep.rule('WIPE-2', 'for each secret-bearing temporary T of function f: from any instruction that may write secret data into T, the dep:memzero '
+                 'calls (direct, or through a helper that always makes that call) that lie on EVERY path to a return of f together cover every byte '
+                 'of T (one whole-object wipe, or member-wise wipes of a struct of temporaries); a memset or zero store does not count')
         for f, a in locs:
             obj = ('alloca', f.name, a.id)
             tin = T.taint_insts.get(obj, set())
@@ -60,37 +101,39 @@ def wipes(ctx, rep, cfgs=None):
                         r = reach(c)
                         if any(fn in r for (fn, _) in tin):
                             points.append(i); break
-            # wipe instructions for T inside f
-            wipe_ids = set()
+            # wipe instructions for (parts of) T inside f: call -> (offset, length)
+            wipes_T = {}
+            N = a.d['alloc_size']
             for i, t in P.calls(f):
                 if t == ('dep', 'memzero'):
                     v, off = strip_casts(f, i.ops[0])
-                    if v == {'k': 'i', 'id': a.id} and off == 0 and i.ops[1]['k'] == 'c' and i.ops[1]['v'] == a.d['alloc_size']:
-                        wipe_ids.add(i.id)
+                    if v == {'k': 'i', 'id': a.id} and off is not None and i.ops[1]['k'] == 'c' and 0 <= off and off + i.ops[1]['v'] <= N:
+                        wipes_T[i.id] = (off, i.ops[1]['v'])
                 elif t[0] == 'direct' and t[1] in P.defined:
                     for k, arg in enumerate(i.ops):
-                        if (t[1], k) in wipers and wipers[(t[1], k)] == a.d['alloc_size']:
+                        if (t[1], k) in wipers:
                             v, off = strip_casts(f, arg)
-                            if v == {'k': 'i', 'id': a.id} and off == 0:
-                                wipe_ids.add(i.id)
+                            if v == {'k': 'i', 'id': a.id} and off is not None and 0 <= off and off + wipers[(t[1], k)] <= N:
+                                wipes_T[i.id] = (off, wipers[(t[1], k)])
             var = a.d.get('var', '#%d' % a.id)
             cons = '%s: local %s' % (base_name(f.name), var)
             if not points:
                 raise AnalysisBroken('tainted local %s has no tainting instruction in its own function' % cons)
+            taint_ids = set(q.id for q in points)
             for p in points:
-                path = f.reach_ret_avoiding(p, wipe_ids)
-                rep.check(path is None,
-                          'after %s (which may put secret data into `%s`, %d bytes) every path to a return passes '
-                          'dep:memzero(&%s, %d)' % (p.loc, var, a.d['alloc_size'], var, a.d['alloc_size']),
-                          p.loc, cons,
-                          detail={'tainted_at': p.loc, 'unwiped_exit_path_blocks': path,
-                                  'exit': f.blocks[path[-1]][-1].loc if path else None,
-                                  'wipes_found': sorted(f.insts[w].loc for w in wipe_ids)},
-                          sample={'function': f.name, 'local': var, 'taint_point': p.loc, 'wipes': sorted(f.insts[w].loc for w in wipe_ids)},
+                # forward must-dataflow from p: which bytes of T have been wiped (since the last tainting instruction) on EVERY path reaching each return
+                worst, retloc = wiped_at_returns(f, p, wipes_T, taint_ids, N)
+                missing = bin(((1 << N) - 1) & ~worst).count('1') if worst is not None else 0
+                rep.check(missing == 0,
+                          'after %s (which may put secret data into `%s`, %d bytes) every path to a return passes dep:memzero calls that together cover all %d bytes'
+                          % (p.loc, var, N, N), p.loc, cons,
+                          detail={'tainted_at': p.loc, 'bytes_possibly_unwiped_at_a_return': missing, 'return': retloc,
+                                  'wipes_found': sorted('%s [%d,+%d)' % (f.insts[w_].loc, wipes_T[w_][0], wipes_T[w_][1]) for w_ in wipes_T)},
+                          sample={'function': f.name, 'local': var, 'taint_point': p.loc, 'wipes': sorted(f.insts[w_].loc for w_ in wipes_T)},
                           key='WIPE-2|%s|%s' % (base_name(f.name), var))
 
-        rep.rule('WIPE-3', 'every dep:memzero call covers exactly one whole object from its base: (address of a local, its '
-                 'allocated size) or (a seed pointer, sizeof(polyseed_data)); no partial or offset wipes')
+        rep.rule('WIPE-3', 'every dep:memzero call has a constant offset and a constant length that stay inside the object it targets (a local or one of its '
+                 'members) or is (a seed pointer, sizeof(polyseed_data)); never a data-dependent length')
         n = 0
         for f in P.defined.values():
             for i, t in P.calls(f):
@@ -99,14 +142,14 @@ def wipes(ctx, rep, cfgs=None):
                 v, off = strip_casts(f, i.ops[0])
                 size = i.ops[1]['v'] if i.ops[1]['k'] == 'c' else None
                 ok = False
-                if off == 0 and size is not None:
+                if off is not None and size is not None and off >= 0:
                     objs = pts.of(f, i.ops[0])
-                    def osize(o):
-                        if o[0] == 'alloca': return P.defined[o[1]].insts[o[2]].d['alloc_size']
-                        if o[0] in ('heap', 'ext'): return P.structs[DATA_STRUCT]['size']
-                        return None
-                    ok = bool(objs) and all(osize(o) == size for o in objs)
-                rep.check(ok, 'memzero at %s wipes a whole object' % i.loc, i.loc, f.name,
+                    def fits(o):
+                        if o[0] == 'alloca': return off + size <= P.defined[o[1]].insts[o[2]].d['alloc_size']
+                        if o[0] in ('heap', 'ext'): return off == 0 and size == P.structs[DATA_STRUCT]['size']
+                        return False
+                    ok = bool(objs) and all(fits(o) for o in objs)
+                rep.check(ok, 'memzero at %s wipes a constant range inside its object' % i.loc, i.loc, f.name,
                           detail={'size': size, 'offset': off}, sample={'site': i.loc, 'size': size})
         rep.instances(n, 3, 'dep:memzero call sites')
 
